@@ -109,6 +109,14 @@ const RAW_LINES: [&str; 26] = [
     "\u{feff}0, CONSUMO, ACS, GASNATURAL, 1",
 ];
 
+/// metadata the command-line program interprets, with values of every shape its parsers accept or
+/// must reject (plain, parenthesised and braces forms of a factor triple, truncated, non-numeric)
+const META_KEYS: [&str; 8] = ["CTE_RED1", "CTE_RED2", "CTE_AREAREF", "CTE_KEXP", "CTE_LOCALIZACION", "Area_ref", "kexp", "Localizacion"];
+const META_VALUES: [&str; 30] = [
+    "0.5, 1.1, 0.2", "(0.5, 1.1, 0.2)", "{ ren: 0.5, nren: 1.1, co2: 0.2 }", "{ ren: 0.0, nren: 1.3, co2: 0.3, }", "{ ren: 0.0, nren", "{ 0.0, 1.3, 0.3 }", "{}", "{", "}", "{ ren: x }", "{ren:1}", "(", "()", "1, 2", "1, 2, 3, 4",
+    "a, b, c", ",,", "", "NaN, NaN, NaN", "inf", "1e39, 0, 0", "-1, -1, -1", "PENINSULA", "peninsula", "100.5", "0", "1", "0.5", "-0.0", "1:2:3",
+];
+
 fn corr_s() -> BoxedStrategy<Corr> {
     let tok = prop_oneof![select(NUM_TOKENS.to_vec()), select(TAG_TOKENS.to_vec())].prop_map(|s| s.to_string());
     prop_oneof![
@@ -124,6 +132,8 @@ fn corr_s() -> BoxedStrategy<Corr> {
         (any::<u8>(), tok).prop_map(|(a, t)| Corr::AppendValue(a, t)),
         any::<u8>().prop_map(Corr::RemoveLastValue),
         (any::<u8>(), select(RAW_LINES.to_vec())).prop_map(|(a, t)| Corr::InsertRaw(a, t.to_string())),
+        (any::<u8>(), select(META_KEYS.to_vec()), select(META_VALUES.to_vec())).prop_map(|(a, k, v)| Corr::InsertRaw(a, format!("#META {}: {}", k, v))),
+        (any::<u8>(), select(META_KEYS.to_vec()), select(META_VALUES.to_vec())).prop_map(|(a, k, v)| Corr::InsertRaw(a, format!("#META {}: {}", k, v))),
         (any::<u8>(), "[ -~]{0,40}").prop_map(|(a, t)| Corr::InsertRaw(a, t)),
         Just(Corr::CrOnly),
         any::<u8>().prop_map(Corr::Upper),
@@ -387,6 +397,20 @@ pub fn chain(comps_text: &str, factors_text: Option<&str>, loc: &str, k: f32, ar
             return (false, reached);
         }
     };
+    {
+        use cteepbd::types::MetaVec;
+        for k in META_KEYS {
+            let _ = comps.get_meta(k);
+            let _ = comps.get_meta_f32(k);
+            let _ = comps.get_meta_rennren(k);
+            let _ = comps.has_meta(k);
+        }
+        for m in &comps.meta {
+            let _ = m.value.parse::<RenNrenCo2>();
+            let _ = m.to_xml();
+            let _ = m.to_string().parse::<cteepbd::types::Meta>();
+        }
+    }
     let _ = comps.clone().normalize();
     let printed = comps.to_string();
     let _ = printed.parse::<Components>();
